@@ -3,7 +3,7 @@
    the extracted datatypes. *)
 From Coq Require Import ZArith List Floats.
 From Coq Require Import ExtrOcamlBasic ExtrOCamlFloats ExtrOCamlInt63.
-From SC Require Import Num Vec3 Kernel FloatIO Grid Integrator CellCycle Mesh Geometry Forces MeshOps.
+From SC Require Import Num Vec3 Kernel FloatIO Grid Integrator CellCycle Mesh Geometry Forces MeshOps Population.
 
 Definition kernel_f := kernel NumF.
 
@@ -61,6 +61,11 @@ Definition frc_bending_f := @apply_bending float NumF.
 Definition ops_replay_f := @replay float NumF.
 Definition ops_guards_f := @guards_ok float NumF.
 
+(* C08: population bookkeeping *)
+Definition pop_init := init_pop.
+Definition pop_step := pstep.
+Definition pop_inv_b := popinv_b.
+
 Extraction Language OCaml.
 Extraction "model.ml" NumF kernel_f
   grid_dims_f grid_idx3_f grid_in_range_f grid_flat_f grid_empty_f grid_place_f grid_nbh_f grid_content_f grid_content_at_f
@@ -70,4 +75,5 @@ Extraction "model.ml" NumF kernel_f
   geo_repair_f geo_tri_pos_f geo_normal_f geo_area_f geo_volume_f geo_total_area_f geo_centroid_f geo_aabb_f
   mesh_valid_surface_b mesh_valid_dump_b mesh_connected_b
   frc_refresh_f frc_pressure_f frc_tension_f frc_anglereg_f frc_bending_f
-  ops_replay_f ops_guards_f.
+  ops_replay_f ops_guards_f
+  pop_init pop_step pop_inv_b.
